@@ -6,6 +6,9 @@ from sa.defuse import maybe_unbound
 from sa.poly import P, TermBuilder, Unsupported
 from sa.report import Incomplete
 from sa import rules_engine as E
+from sa.peval import PE, Opaque, FStr
+from sa.poly import as_p
+import itertools
 
 TMOD = 'synapgrad.nn.utils.train'
 TR = TMOD + '.Trainer'
@@ -159,43 +162,10 @@ def check(model, R, tier):
     pre = [c for c in ast.walk(va.node) if isinstance(c, ast.Call) and isinstance(c.func, ast.Attribute) and c.func.attr in ('step', 'compute') and 'evaluator' in norm(c.func)]
     okp = bool(pre) and all(any(k.arg == 'prefix' and norm(k.value) == "'val'" for k in c.keywords) for c in pre)
     R.ob('C20.HISTORY', va.qualname, 'evaluator called with prefix=\'val\' (%d calls)' % len(pre), okp, 'validation metrics must carry the val_ prefix', va.loc)
-    cp = model.func(TMOD + '.Evaluator.__compute')
-    pf = [n for n in ast.walk(cp.node) if isinstance(n, ast.JoinedStr)]
-    R.ob('C20.HISTORY', cp.qualname, 'prefixed name %s' % [norm(p) for p in pf], any(norm(p) == "f'{prefix}_{m}'" for p in pf), 'prefixed metric names are <prefix>_<name>', cp.loc)
-    # the prefix is applied to ALL metrics (built-in and callback ones): every extension of the metrics list precedes the prefixing block
-    ccfg = CFG(cp.node)
-    ext = [n for n in body_walk(cp.node) if isinstance(n, ast.AugAssign) and norm(n.target) == 'metrics'] + \
-          [n for n in body_walk(cp.node) if isinstance(n, ast.Expr) and isinstance(n.value, ast.Call) and norm(n.value.func) in ('metrics.append', 'metrics.extend')]
-    pref = [n for n in cp.node.body if isinstance(n, ast.If) and 'prefix' in norm(n.test)]
-    okx = len(pref) == 1 and bool(ext) and all(not ccfg.path_exists(pref[0], e) for e in ext)
-    lastret = cp.node.body[-1]
-    okx = okx and isinstance(lastret, ast.Return) and norm(lastret.value) == 'metrics' and cp.node.body.index(pref[0]) == len(cp.node.body) - 2 if pref else False
-    R.ob('C20.HISTORY', cp.qualname, 'prefixing after every metrics extension (%d)' % len(ext), bool(okx), 'metrics added after the prefix was applied (e.g. callback metrics) would be recorded under the train key', cp.loc)
-    # ---------------------------------------------------------------- EVALUATOR
-    stp = model.func(TMOD + '.Evaluator.step')
-    for f in (stp, model.func(TMOD + '.Evaluator.report')):
-        chain = [n for n in f.node.body if isinstance(n, ast.If) and 'self.mode ==' in norm(n.test)]
-        ok = len(chain) == 1
-        modes = []
-        if ok:
-            cur = chain[0]
-            while True:
-                modes.append(norm(cur.test))
-                if len(cur.orelse) == 1 and isinstance(cur.orelse[0], ast.If):
-                    cur = cur.orelse[0]
-                else:
-                    ok = any(isinstance(x, ast.Raise) for x in cur.orelse)
-                    break
-            ok = ok and sorted(modes) == ['self.mode == self.BINARY', 'self.mode == self.CATEGORICAL', 'self.mode == self.MULTI_CLASS']
-        R.ob('C20.EVALUATOR', f.qualname, 'modes %s with raising fall-through' % modes, ok, 'an unknown label mode must be rejected, not silently treated as another mode', f.loc)
-    acc = model.func(TMOD + '.Evaluator.basic_accuracy_callback')
-    a1, a2 = acc.pos_params[1], acc.pos_params[2]
-    exprs = [norm(n.value) for n in body_walk(acc.node) if isinstance(n, ast.Assign)]
-    ok = any(e.replace(' ', '') in (('(%s==%s).sum()/len(%s)' % (a1, a2, a1)).replace(' ', ''), ('(%s==%s).sum()/len(%s)' % (a2, a1, a1)).replace(' ', ''), ('(%s==%s).mean()' % (a1, a2)).replace(' ', '')) for e in exprs)
-    R.ob('C20.EVALUATOR', acc.qualname, 'accuracy = %s' % exprs, ok, 'accuracy is the fraction of equal predictions', acc.loc)
-    comp = model.func(TMOD + '.Evaluator.compute')
-    ok = any(isinstance(n, ast.Expr) and norm(n.value) == 'self.reset()' for n in comp.node.body)
-    R.ob('C20.EVALUATOR', comp.qualname, 'self.reset() in compute', ok, 'epoch accumulators must be cleared after computing the epoch metrics', comp.loc)
+    try:
+        check_evaluator(model, R)
+    except Incomplete as u:
+        R.incomplete_at('C20.EVALUATOR', TMOD + '.Evaluator', str(u))
     # ---------------------------------------------------------------- DEFASSIGN
     for f in (tr, va, te, fit):
         ub = maybe_unbound(f.node)
@@ -214,3 +184,121 @@ def check(model, R, tier):
                     'mean of batch losses); exhaustive evaluator mode dispatch; definite assignment of names used after loops. User callbacks are opaque.',
         assumptions=['model / optimizer / criterion follow the package\'s own APIs (C07, C08, C12, C13 cover their behaviour)'],
         technique='CFG dominance and region checks + call-site enumeration + definite-assignment dataflow')
+
+
+# ------------------------------------------------------------------------------------------------ Evaluator on evaluated paths
+def _aname(v):
+    if isinstance(v, P) and len(v.t) == 1:
+        (m, c), = v.t.items()
+        if c == 1 and len(m) == 1 and m[0][1] == 1:
+            return m[0][0]
+    return None
+
+
+def _ev_hooks(rec):
+    A = P.atom
+
+    def call_hook(pe, name, e, args, kw, env, func, depth):
+        n = name or ''
+        if isinstance(e.func, ast.Attribute) and e.func.attr in ('squeeze', 'detach', 'numpy', 'cpu', 'flatten') and not n.startswith('numpy.') and not args:
+            return pe.expr(e.func.value, env, func, depth)
+        if n == 'numpy.where' and len(args) == 3 and isinstance(args[0], P):
+            return as_p(args[1]) * args[0] + as_p(args[2]) * (1 - args[0])
+        if n == 'numpy.argmax' and args and _aname(args[0]):
+            ax = kw.get('axis', args[1] if len(args) > 1 else None)
+            return A('argmax%s(%s)' % (ax, _aname(args[0])))
+        if n == 'numpy.concatenate' and args and isinstance(args[0], (list, tuple)):
+            return ('concat',) + tuple(args[0])
+        if isinstance(e.func, ast.Attribute) and e.func.attr in ('sum', 'mean') and not n.startswith(('numpy.', 'synapgrad')) and not args:
+            v = pe.expr(e.func.value, env, func, depth)
+            if _aname(v) and _aname(v).startswith('eq('):
+                return A('%s(%s)' % (e.func.attr, _aname(v)))
+        if isinstance(e.func, ast.Name) and _aname(env.get(e.func.id)) and 'callback' in _aname(env.get(e.func.id)):
+            rec.append((_aname(env[e.func.id]), args))
+            return [('cbm', A('cbv'))]
+        if n in ('print', 'builtins.print'):
+            return None
+        return NotImplemented
+
+    def compare_hook(pe, op, a, b):
+        if isinstance(op, ast.Eq) and _aname(a) and _aname(b):
+            return A('eq(%s)' % ','.join(sorted((_aname(a), _aname(b)))))
+        if isinstance(op, (ast.Gt, ast.GtE)) and _aname(a) and isinstance(b, float):
+            return A('gt%s(%s)' % (b, _aname(a)))
+        return NotImplemented
+    return call_hook, compare_hook
+
+
+def check_evaluator(model, R):
+    A = P.atom
+    ev = model.cls(TMOD + '.Evaluator')
+    consts = {}
+    for n in ev.node.body:
+        if isinstance(n, ast.Assign) and len(n.targets) == 1 and isinstance(n.targets[0], ast.Name) and isinstance(n.value, ast.Constant) and isinstance(n.value.value, str):
+            consts[n.targets[0].id] = n.value.value
+    if not {'BINARY', 'MULTI_CLASS', 'CATEGORICAL'} <= set(consts):
+        raise Incomplete('Evaluator mode constants not found: %s' % sorted(consts))
+    base = {'self.%s' % k: v for k, v in consts.items()}
+    stp = model.func(TMOD + '.Evaluator.step')
+    rep = model.func(TMOD + '.Evaluator.report')
+    cp = model.func(TMOD + '.Evaluator.__compute')
+    comp = model.func(TMOD + '.Evaluator.compute')
+
+    def acc(yt, yp):
+        return A('sum(eq(%s))' % ','.join(sorted((yt, yp)))) / A('len(%s)' % yt)
+    want = {'BINARY': ('labels', 'gt0.5(outputs)'), 'MULTI_CLASS': ('labels', 'argmax1(outputs)'), 'CATEGORICAL': ('argmax1(labels)', 'argmax1(outputs)')}
+    # ---- step: per mode
+    for mode in ('BINARY', 'MULTI_CLASS', 'CATEGORICAL', None):
+        rec = []
+        ch, cm = _ev_hooks(rec)
+        atoms = dict(base, **{'self.mode': consts[mode] if mode else 'no-such-mode', 'self.step_callback': None})
+        outs = PE(model, atoms=atoms, preds={'self.accuracy_bool': True}, call_hook=ch, compare_hook=cm, atoms_not_none=True).paths(stp, {'labels': A('labels'), 'outputs': A('outputs'), 'prefix': None})
+        if mode is None:
+            ok = bool(outs) and all(o.kind == 'raise' for o in outs) and not [s_ for o in outs for s_ in o.stores]
+            R.ob('C20.EVALUATOR', stp.qualname, 'unknown mode -> %s' % [o.kind for o in outs], ok, 'an unknown label mode must be rejected (raise) before anything is accumulated, not silently treated as another mode', stp.loc)
+            continue
+        yt, yp = want[mode]
+        ok = len(outs) == 1 and outs[0].kind == 'return' and isinstance(outs[0].value, list) and len(outs[0].value) == 1 and outs[0].value[0][0] == 'accuracy' \
+            and isinstance(outs[0].value[0][1], P) and outs[0].value[0][1] == acc(yt, yp)
+        if ok:
+            st = {k: v for k, v, _ in outs[0].stores}
+            ok = st.get('self.y_true') == ('concat', A('self.y_true'), A(yt)) and st.get('self.y_pred') == ('concat', A('self.y_pred'), A(yp))
+        R.ob('C20.EVALUATOR', stp.qualname, 'mode %s -> %s' % (mode, [(o.kind, _showm(o.value)) for o in outs]), ok,
+             'mode %s: predictions %s vs labels %s, accuracy = equal / total of THIS batch, both appended to the epoch accumulators' % (mode, yp, yt), stp.loc)
+    for mode in ('BINARY', 'MULTI_CLASS', 'CATEGORICAL', None):
+        rec = []
+        ch, cm = _ev_hooks(rec)
+        atoms = dict(base, **{'self.mode': consts[mode] if mode else 'no-such-mode'})
+        outs = PE(model, atoms=atoms, call_hook=ch, compare_hook=cm, atoms_not_none=True, default_pred=lambda t: True if 'auc' in t else None).paths(rep, {p_: A(p_) for p_ in rep.pos_params[1:]})
+        ok = bool(outs) and (all(o.kind == 'raise' for o in outs) if mode is None else all(o.kind != 'raise' for o in outs))
+        R.ob('C20.EVALUATOR', rep.qualname, 'mode %s -> %s' % (mode or 'unknown', sorted({o.kind for o in outs})), ok, 'report accepts the three documented modes and rejects any other', rep.loc)
+    # ---- __compute: which metrics, under which names
+    for accb, cb, pref in itertools.product((True, False), (None, A('callback')), (None, A('prefix'), 'val')):
+        rec = []
+        ch, cm = _ev_hooks(rec)
+        outs = PE(model, preds={'self.accuracy_bool': accb}, call_hook=ch, compare_hook=cm, atoms_not_none=True).paths(cp, {'y_true': A('yt'), 'y_pred': A('yp'), 'prefix': pref, 'callback': cb})
+        exp = ([('accuracy', acc('yt', 'yp'))] if accb else []) + ([('cbm', A('cbv'))] if cb is not None else [])
+        if pref is not None:
+            exp = [(('val_' + k) if pref == 'val' else FStr([pref, '_' + k]), v) for k, v in exp]
+        got = outs[0].value if len(outs) == 1 and outs[0].kind == 'return' else None
+        ok = isinstance(got, list) and len(got) == len(exp) and all(isinstance(g, tuple) and len(g) == 2 and g[0] == e_[0] and isinstance(g[1], P) and g[1] == e_[1] for g, e_ in zip(got, exp))
+        ok = ok and ([r[0] for r in rec] == (['callback'] if cb is not None else [])) and all(len(r[1]) == 2 and _aname(r[1][0]) == 'yt' and _aname(r[1][1]) == 'yp' for r in rec)
+        R.ob('C20.HISTORY', cp.qualname, 'accuracy=%s callback=%s prefix=%s -> %s' % (accb, 'given' if cb is not None else None, pref if not isinstance(pref, P) else '<p>', _showm(got)), ok,
+             'metrics = [accuracy?] + [callback metrics?], every one of them renamed <prefix>_<name> when a prefix is given (a metric added after prefixing would be recorded under the train key)', cp.loc)
+    # ---- compute(): epoch metrics of the accumulated values, then reset
+    rec = []
+    ch, cm = _ev_hooks(rec)
+    outs = PE(model, atoms={'self.epoch_callback': None}, preds={'self.accuracy_bool': True}, call_hook=ch, compare_hook=cm, atoms_not_none=True).paths(comp, {'prefix': None})
+    ok = len(outs) == 1 and outs[0].kind == 'return' and isinstance(outs[0].value, list) and len(outs[0].value) == 1 and isinstance(outs[0].value[0][1], P) and outs[0].value[0][1] == acc('self.y_true', 'self.y_pred')
+    st = [k for o in outs for k, v, _ in o.stores]
+    ok = ok and sorted(st) == ['self.y_pred', 'self.y_true']
+    R.ob('C20.EVALUATOR', comp.qualname, 'compute() -> %s, resets %s' % ([_showm(o.value) for o in outs], sorted(st)), ok,
+         'epoch metrics are computed from the accumulated labels / predictions (read before the reset) and both accumulators are cleared afterwards', comp.loc)
+
+
+def _showm(v):
+    if isinstance(v, P):
+        return v.canon()
+    if isinstance(v, (list, tuple)):
+        return '[' + ', '.join(_showm(x) for x in v) + ']'
+    return repr(v)
